@@ -126,10 +126,11 @@ func (e *evaluator) evalProgram(p *Program) ([]finding, progStats) {
 				}
 			}
 		}
+		withNil := st.accepted == 1 // nil interface values: a statistic, taken on the first accepted order only
 		for _, mode := range []string{"Invoke", "Stream"} {
 			ch := &chooser{}
 			for {
-				ex := m.simulate(ch, true)
+				ex := m.simulate(ch, withNil)
 				o := b.runOnce(e.ctx, mode, ch.taken)
 				runFinding(mode, ch, ex, o)
 				if !ch.next() {
@@ -334,9 +335,26 @@ func classify(p *Program, m *model, order []int, kind string, ex *expect, extra 
 	if p.Container == "chain" {
 		cont = "chain:"
 	}
+	if kind == "accepted-concrete-mismatch" {
+		all := true
+		for _, c := range m.concreteMismatch {
+			if !m.widened(c) {
+				all = false
+			}
+		}
+		if all {
+			return "passthrough-typed-by-interface-neighbour"
+		}
+	}
 	switch {
 	case kind == "accepted-concrete-mismatch":
 		c := m.concreteMismatch[0]
+		for _, x := range m.concreteMismatch {
+			if !m.widened(x) {
+				c = x
+				break
+			}
+		}
 		via := "direct"
 		if c.Via > 0 {
 			via = "through-passthrough"
@@ -405,6 +423,7 @@ func main() {
 		c.Journal(name, Case{Program: p, Calls: name})
 		var fs []finding
 		var st progStats
+		t0 := time.Now()
 		err := c.Guard(name, Case{Program: p, Calls: name}, 120*time.Second, func() error {
 			fs, st = ev.evalProgram(p)
 			return nil
@@ -421,6 +440,10 @@ func main() {
 		c.Count("orders_rejected", int64(st.rejected))
 		c.Count("runs", st.runs)
 		c.Count("programs/"+p.Container, 1)
+		c.Count("tmpl_orders/"+p.Tmpl, int64(st.orders))
+		c.Count("tmpl_runs/"+p.Tmpl, st.runs)
+		c.Count("tmpl_programs/"+p.Tmpl, 1)
+		c.Count("tmpl_ms/"+p.Tmpl, time.Since(t0).Milliseconds())
 		m := newModel(p)
 		if p.nontrivial(m) {
 			c.Res.Nontrivial++
